@@ -9,6 +9,7 @@
 #include <cstdlib>
 #include <cstring>
 #include <igris/util/numconvert.h>
+#include "ro_text.hpp"
 #include <set>
 #include <string>
 #include <vector>
@@ -94,6 +95,9 @@ static char *pool(size_t n)
         g_pool[n] = (char *)malloc(n ? n : 1);
     return g_pool[n];
 }
+// every input text also exists in READ-ONLY memory, its NUL flush against an inaccessible page (ro_text.hpp)
+static const char *g_ro = nullptr, *g_ro_of = nullptr;
+static inline const char *ro_twin(const char *s) { return s == g_ro_of ? g_ro : s; }
 static char *g_spool[200];
 static const char *exact_copy(const char *s, size_t len)
 {
@@ -103,6 +107,10 @@ static const char *exact_copy(const char *s, size_t len)
         g_spool[len + 1] = (char *)malloc(len + 1);
     memcpy(g_spool[len + 1], s, len);
     g_spool[len + 1][len] = 0;
+    g_ro = ro_text::stage(g_spool[len + 1], len);
+    if (!g_ro)
+        mc::harness_error("ro_text::stage failed");
+    g_ro_of = g_spool[len + 1];
     return g_spool[len + 1];
 }
 
@@ -125,7 +133,8 @@ static const Rend RENDS[] = {
          g_capn = 0;
          debug_printdec_double_prec(x, p);
          int n = g_capn < (int)sizeof g_cap - 1 ? g_capn : (int)sizeof g_cap - 1;
-         memcpy(b, g_cap, n);
+         for (int i = 0; i < n; i++) // a NUL sent to the debug channel is a character like any other: keep it visible
+             b[i] = g_cap[i] ? g_cap[i] : '\x01';
          b[n] = 0;
          return b;
      },
@@ -136,7 +145,8 @@ static const Rend RENDS[] = {
          g_capn = 0;
          debug_printdec_float_prec((float)x, p);
          int n = g_capn < (int)sizeof g_cap - 1 ? g_capn : (int)sizeof g_cap - 1;
-         memcpy(b, g_cap, n);
+         for (int i = 0; i < n; i++) // a NUL sent to the debug channel is a character like any other: keep it visible
+             b[i] = g_cap[i] ? g_cap[i] : '\x01';
          b[n] = 0;
          return b;
      },
@@ -456,10 +466,19 @@ struct Lit
     int sig_digits = 0; // mantissa digits from the first non-zero one on
 };
 
-static void check_parse(const Pars &p, const char *s, size_t slen, const Lit &L, double want_d, float want_f, size_t want_end, uint64_t &worst)
+static void check_parse(const Pars &p, const char *s, size_t slen, const Lit &L, double want_d, float want_f, size_t want_end, uint64_t &worst,
+                        bool also_readonly = true)
 {
     char *end = nullptr;
     double got = p.fn(s, p.has_end ? &end : nullptr);
+    if (also_readonly)
+    {
+        // again with the text in read-only memory and without an end pointer: same bits
+        double again = p.fn(ro_twin(s), nullptr);
+        if (memcmp(&again, &got, sizeof got) != 0)
+            mc::violation(mc::fmt("C12.%s.value_differs_on_readonly_copy_or_null_end", p.name), "%s(\"%s\") = %.17g, on the read-only copy with end = NULL %.17g",
+                          p.name, vis(s, slen).c_str(), got, again);
+    }
     double want = p.flt ? (double)want_f : want_d;
     // end of the literal
     if (p.has_end)
@@ -524,12 +543,26 @@ static void check_parse(const Pars &p, const char *s, size_t slen, const Lit &L,
 // ================================================================= sub-checks
 static const int PRECS_ALL[14] = {-1, 0, 1, 2, 3, 4, 5, 6, 7, 8, 9, 10, 11, 12};
 
+// The -funsigned-char build (plain char is unsigned on ARM / PowerPC / RISC-V) re-runs a selection of the sub-checks.
+static void reg(const char *name, std::function<void()> body)
+{
+#ifdef VARIANT_UCHAR
+    static const char *const SEL[] = {"render_decimal_ties_and_carries", "debug_printdec_large_magnitudes", "parse_long_mantissa", "parse_exponent_range"};
+    bool in = false;
+    for (const char *q : SEL)
+        in |= !strcmp(q, name);
+    if (!in)
+        return;
+#endif
+    mc::add_check(name, body);
+}
+
 MC_INIT
 {
     build_families();
 
     // (1) binary32 family: every exponent field x both signs x mantissas with <=3 bits set / <=2 bits cleared x precisions -1..12
-    mc::add_check("render_f32_family_all_precisions", [] {
+    reg("render_f32_family_all_precisions", [] {
         int c0 = mc::choose(256 * 2);
         uint32_t ef = c0 / 2, sign = c0 % 2;
         mc::describe("binary32 exponent field %u sign %u: %zu mantissas x precisions -1..12, igris_f32toa + debug_printdec_double_prec/_float_prec (+ f64toa, ftoa at 4 precisions)", ef, sign,
@@ -560,7 +593,7 @@ MC_INIT
 
     // (2) decimal neighbourhoods: (A + h/2) / 10^q, its float neighbours -2..+2 ulp, both signs, all precisions:
     //     rounding ties, carries into the integer part (9.99.. -> 10.0), digit-count boundaries
-    mc::add_check("render_decimal_ties_and_carries", [] {
+    reg("render_decimal_ties_and_carries", [] {
         static std::vector<long> A;
         if (A.empty())
         {
@@ -604,7 +637,7 @@ MC_INIT
     });
 
     // (3) binary64 family through igris_f64toa and igris_ftoa
-    mc::add_check("render_f64_family", [] {
+    reg("render_f64_family", [] {
         int c0 = mc::choose((int)g_e64.size());
         uint64_t ef = g_e64[c0];
         mc::describe("binary64 exponent field %llu: %zu mantissas x both signs x precisions -1..12, igris_f64toa + igris_ftoa + debug_printdec_double_prec", (unsigned long long)ef, g_m52.size());
@@ -639,7 +672,7 @@ MC_INIT
     //      with their float neighbours -2..+2 ulp (2^32 - 1 ulp = 4294967040 is the largest float below 2^32), both signs,
     //      precisions 0..12: debug_printdec_float_prec and debug_printdec_double_prec; the double printer also on the double
     //      neighbours -1..+1 ulp of each power. The integer part of the unchanged routines is a uint64_t: exact below 2^64.
-    mc::add_check("debug_printdec_large_magnitudes", [] {
+    reg("debug_printdec_large_magnitudes", [] {
         int c0 = mc::choose((41 + 12) * 2);
         int which = c0 / 2;
         uint32_t sign = c0 % 2;
@@ -676,7 +709,7 @@ MC_INIT
 
     // (4) binary32 sweep. thorough: all 2^32 bit patterns; quick: the 2^21 patterns whose low 11 mantissa bits are all 0 or all 1.
     //     precisions: automatic, 3 and 10 (longest digit loop, largest accumulated single-precision error)
-    mc::add_check("render_f32_sweep", [] {
+    reg("render_f32_sweep", [] {
         int blk = mc::choose(1024); // sign, exponent field, top bit of the mantissa
         static const int P[3] = {-1, 3, 10};
         int prec = P[mc::choose(3)];
@@ -739,7 +772,7 @@ MC_INIT
 
     // (5) every literal [+-]?d{0,3}(.d{0,3})?(e[+-]?d{1,2}|E[+-]?d)? over d in {0,1,5,9}, followed by each terminator,
     //     ("", " ", "x", "e", "e+", "E-", ".", "-"), through the five entry points; oracle = glibc strtod/strtof on the same bytes
-    mc::add_check("parse_literal_grammar", [] {
+    reg("parse_literal_grammar", [] {
         static const char D[4] = {'0', '1', '5', '9'};
         static const char *const T[8] = {"", " ", "x", "e", "e+", "E-", ".", "-"};
         // first choice: sign (3) x integer part (85 digit strings of length 0..3)
@@ -827,7 +860,7 @@ MC_INIT
                     for (int k = 0; k < NPARS; k++)
                     {
                         mc::crash_context("C12.%s.memory", PARS[k].name);
-                        check_parse(PARS[k], s, len, L, wd, wf, wend, worst);
+                        check_parse(PARS[k], s, len, L, wd, wf, wend, worst, t == 0 || t == 2 || t == 4);
                         cases++;
                         nt += L.mant_digits && (flen || L.has_exp);
                     }
@@ -849,7 +882,7 @@ MC_INIT
     // (6) long mantissas: 1..40 significant digits (all 9s, all 1s, 1 and zeros, the digits of pi, the neighbourhoods of 2^53, 2^63,
     //     2^64, 10^19), with and without leading zeros, the decimal point at every position (and absent), sign, exponents
     //     {none, e-5, e+5, E0}, terminators {"", " ", "x", "e"}, the five entry points; oracle as in (5)
-    mc::add_check("parse_long_mantissa", [] {
+    reg("parse_long_mantissa", [] {
         static std::vector<std::string> DS;
         if (DS.empty())
         {
@@ -936,7 +969,7 @@ MC_INIT
     // (7) exponent range: a few mantissas x exponents from 0 to far beyond what any accumulator holds (overflow to inf, underflow
     //     through the denormals to 0, 2^31, 2^32, 2^64 digit strings, leading zeros) x signs x markers x terminators, five entry
     //     points. Oracle as in (5); inf must meet inf; and every call must return (watchdog: signature ...exponent_range.hang)
-    mc::add_check("parse_exponent_range", [] {
+    reg("parse_exponent_range", [] {
         static const char *const MANT[6] = {"0", "1", "1.5", "123.5", ".1", "9.999999999999999"};
         static const int MFRAC[6] = {0, 0, 1, 1, 1, 15}, MDIG[6] = {1, 1, 2, 4, 1, 16};
         static const char *const EXPS[] = {"0", "+0", "-0", "5", "22", "23", "-22", "-23", "37", "38", "39", "-37", "-45", "-46", "99", "-99", "100", "307", "308",
